@@ -10,3 +10,4 @@ func C_a_ConvIface_0() bool { r := a.ConvIface(0); return r == nil }
 func C_a_SwitchDefault_0() bool { r := a.SwitchDefault(nil); return r == nil }
 func C_a_TypedNil_0() bool { r := a.TypedNil(); return r == nil }
 func C_b_B0_0() bool { r := b.B0(0); return r == nil }
+func C_a_CallMaybeIface_0() bool { r := a.CallMaybeIface(true); return r == nil }
